@@ -85,7 +85,7 @@ type scenario struct {
 }
 
 var dbStates = []string{"current", "absent", "stale", "expired", "wrongkey", "farfuture"}
-var fetcherModes = []string{"right", "error", "empty", "wrong", "partial", "extra", "stale", "older"}
+var fetcherModes = []string{"right", "error", "empty", "wrong", "partial", "extra", "stale", "older", "retired"}
 var atMenu = []int64{N - 3_600_000, E - 1, E, N - 1000, N - 999, N + day, N + day + 1, N + 7*day, N + 7*day + 1}
 
 func dbEntry(s, k string, state int) (lres, bool) {
@@ -120,7 +120,7 @@ func fetcherAnswer(mode int, asked map[lr]spec.Timestamp) (map[lr]lres, error) {
 		return nil, errors.New("scripted fetcher error")
 	case "empty":
 		return out, nil
-	case "right", "wrong", "partial", "stale", "older":
+	case "right", "wrong", "partial", "stale", "older", "retired":
 		for rq := range asked {
 			if fetcherModes[mode] == "partial" && string(rq.KeyID) != kids[0] {
 				continue
@@ -131,6 +131,8 @@ func fetcherAnswer(mode int, asked map[lr]spec.Timestamp) (map[lr]lres, error) {
 				res.ValidUntilTS = spec.Timestamp(N - 1000)
 			case "older": // an older copy: valid only up to a day ago
 				res.ValidUntilTS = spec.Timestamp(N - day)
+			case "retired": // the server has retired the key since: reported under old_verify_keys, expired at E
+				res.ValidUntilTS, res.ExpiredTS = 0, spec.Timestamp(E)
 			}
 			out[rq] = res
 		}
@@ -774,7 +776,7 @@ func main() { harness.Main("C12", "fault_enumeration", run) }
 
 func run(r *harness.Run) {
 	verifhook.Clock = func() time.Time { return vnow }
-	r.Rule("(A) deviation-bounded DFS (bound B) from the nominal scenario over: batch of 1-2 requests (server, per-key-ID signature none/valid/made-by-other-key for two ed25519 IDs, an rsa signature, timestamp from a 9-point boundary menu), database state per (server,key) in {current, absent, stale, expired, wrong key, valid far in the future}, two fetchers each in {right, error, empty, wrong key, partial, extra unsolicited keys, right key already past its validity, older copy}, strict/lenient rule, database fetch/store errors, with the real KeyRing under a virtual clock; oracle = reference acquisition model (soundness: success only under a supplied key that verifies and was valid at the timestamp; completeness: success whenever database / first answering fetcher supplies one) + call-trace clauses (fetchers only asked for absent/stale keys, in order, fetched keys stored). (B) full product for CheckKeys. (C) DirectKeyFetcher: every assignment of direct/notary response modes to 3 servers + local name. (D) PerspectiveKeyFetcher: every list of <=3 entries over 6 entry modes. Non-trivial = distinct scenario.")
+	r.Rule("(A) deviation-bounded DFS (bound B) from the nominal scenario over: batch of 1-2 requests (server, per-key-ID signature none/valid/made-by-other-key for two ed25519 IDs, an rsa signature, timestamp from a 9-point boundary menu), database state per (server,key) in {current, absent, stale, expired, wrong key, valid far in the future}, two fetchers each in {right, error, empty, wrong key, partial, extra unsolicited keys, right key already past its validity, older copy, key since retired (expired_ts)}, strict/lenient rule, database fetch/store errors, with the real KeyRing under a virtual clock; oracle = reference acquisition model (soundness: success only under a supplied key that verifies and was valid at the timestamp; completeness: success whenever database / first answering fetcher supplies one) + call-trace clauses (fetchers only asked for absent/stale keys, in order, fetched keys stored). (B) full product for CheckKeys. (C) DirectKeyFetcher: every assignment of direct/notary response modes to 3 servers + local name. (D) PerspectiveKeyFetcher: every list of <=3 entries over 6 entry modes. Non-trivial = distinct scenario.")
 	r.Assume("ed25519 trusted", "unsolicited keys returned by a fetcher may or may not replace database keys: either verdict is accepted when only such a key decides")
 	r.OnReplay("scenario", func(raw json.RawMessage) error {
 		var sc scenario
